@@ -201,10 +201,14 @@ End:
 
 	itr.rowBuilder.AddMetricName(metricName)
 	itr.rowBuilder.AddTimestamp(itr.originRow.Timestamp())
-	ns := itr.originRow.NameSpace()
+	// NOTE: originRow.NameSpace() replaces an empty namespace with the default one, read the raw value
+	ns := itr.originRow.m.Namespace()
 	if len(ns) == 0 {
 		// if row namespace is empty, use request's namespace
 		ns = itr.namespace
+	}
+	if len(ns) == 0 {
+		ns = defaultNS
 	}
 	if itr.limits.EnableNamespaceLengthCheck() && len(ns) > itr.limits.MaxNamespaceLength {
 		return constants.ErrNamespaceTooLong
